@@ -2,11 +2,16 @@ module verifharness
 
 go 1.24.2
 
-require github.com/richardwilkes/toolbox v0.0.0
+require (
+	github.com/richardwilkes/toolbox v0.0.0
+	gopkg.in/yaml.v3 v3.0.1
+)
+
+require golang.org/x/exp v0.0.0-20250305212735-054e65f0b394
 
 require (
-	golang.org/x/exp v0.0.0-20250305212735-054e65f0b394 // indirect
-	gopkg.in/yaml.v3 v3.0.1 // indirect
+	github.com/pkg/term v1.1.0 // indirect
+	golang.org/x/sys v0.32.0 // indirect
 )
 
 replace github.com/richardwilkes/toolbox => /repo
